@@ -25,7 +25,16 @@ import (
 	"time"
 )
 
-const verifDir = "/verif"
+// verifDir is the root of the verification tree: the working directory when it
+// looks like one (so that snapshots of /verif can be run in place), else /verif.
+var verifDir = func() string {
+	if wd, err := os.Getwd(); err == nil {
+		if _, err := os.Stat(filepath.Join(wd, "harness", "worker_test.go")); err == nil {
+			return wd
+		}
+	}
+	return "/verif"
+}()
 
 type scenarioBudget struct {
 	Name        string
@@ -156,7 +165,7 @@ func build() {
 		}
 	}
 	c := exec.Command("bash", filepath.Join(verifDir, "scripts", "instrument.sh"), scratch)
-	c.Env = env()
+	c.Env = append(env(), "VERIF_DIR="+verifDir)
 	if out, err := c.CombinedOutput(); err != nil {
 		cleanup()
 		die(2, "instrumentation of /repo failed (build trouble, not a violation): %v\n%s", err, out)
@@ -168,6 +177,7 @@ func build() {
 		die(2, "%v", err)
 	}
 	ms := strings.ReplaceAll(string(mod), "/verif/scratch/dev", scratch)
+	ms = strings.ReplaceAll(ms, "=> /verif/sim", "=> "+filepath.Join(verifDir, "sim"))
 	modfile := filepath.Join(scratch, "harness.mod")
 	os.WriteFile(modfile, []byte(ms), 0o644)
 	sum, _ := os.ReadFile(filepath.Join(verifDir, "harness", "go.sum"))
